@@ -236,13 +236,14 @@ def split_obs(line):
 class Run:
     """One generated stream of one engine for one property."""
 
-    def __init__(self, engine, name, flags, quick, thorough, project, tags, features=None, known=None, driver=True, clean=True):
+    def __init__(self, engine, name, flags, quick, thorough, project, tags, features=None, known=None, driver=True, clean=True, driver_engine=None):
         self.engine, self.name, self.flags = engine, name, flags
         self.quick, self.thorough = quick, thorough  # (cases, len)
         self.project = project  # observation body → comparable string (None ⇒ whole body)
         self.tags = tags  # oracle tags that belong to this property
         self.features = features
         self.driver = driver
+        self.driver_engine = driver_engine or engine  # protocol the Lean driver speaks for this stream
         self.clean = clean  # clean stream: any failure is an alarm; open stream: classified by known findings
 
 
@@ -280,7 +281,7 @@ def exec_stream(ctx, run, tier):
         if rc != 0:
             return ("harness", rc, err)
         if run.driver:
-            rc, err = run_driver(run.engine, ops_p, model_p)
+            rc, err = run_driver(run.driver_engine, ops_p, model_p)
             if rc != 0:
                 return ("driver", rc, err)
         return None
@@ -328,7 +329,7 @@ def rerun_case(ctx, run, ops, tag="shrink"):
         raise Machinery(f"harness run failed rc={rc}: {err[-400:]}")
     impl = open(impl_p).read().splitlines()
     if run.driver:
-        rc, err = run_driver(run.engine, ops_p, model_p)
+        rc, err = run_driver(run.driver_engine, ops_p, model_p)
         if rc != 0:
             raise Machinery(f"driver failed rc={rc}: {err[-400:]}")
         model = open(model_p).read().splitlines()
